@@ -23,6 +23,9 @@ strings x positions, shape x text are crossed in full):
                                            text after a child element (tail), alone and with a first text
   F5 resource map                          ordered pairs of mapped attributes (known ids with matching names, unknown
                                            ids) x extra unmapped attribute x value type x pool x order x 3 shapes
+  F8 XML Char boundaries                   each of U+0009 U+000A U+000D U+0020 U+007F U+0085 U+D7FF U+E000 U+FFFD U+10000
+                                           U+10FFFF x position {alone, middle, first, last, twice} x place {plain value,
+                                           android: value, text, value+text, two values + child text} x pool
   F7 id/class/style indices                ordered selections of <= 3 of {android:id, class, style, plain} with the
                                            idIndex/classIndex/styleIndex header fields set x pool x resource map x 2 shapes
 Caps: <= 4 elements, <= 4 attributes per document, depth <= 3.
@@ -40,7 +43,9 @@ RULE = ("union of exhaustive sub-products over XML models (<= 4 elements, depth 
 ASSUMPTIONS = [
     "gen/axmlgen.py is the independent writer (byte layer reproduces 1005 shipped aapt/aapt2 files exactly; every generated "
     "document is additionally re-read by its strict reader and compared with the model)",
-    "names and values are legal XML (androguard rewrites illegal ones: DESIGN 11); no comment indices; no styled pools",
+    "names and values are legal XML (androguard rewrites illegal ones: DESIGN 11), including every boundary character of "
+    "the XML 1.0 Char production (F8); illegal characters (C0 controls other than TAB/LF/CR, U+FFFE, U+FFFF, lone "
+    "surrogates) stay outside the alphabet; no comment indices; no styled pools",
     "dimension/fraction data use non-negative mantissas here: the sign of complex values is C27's subject and C27 runs it "
     "through this same writer",
     "resource map: ids known to androguard's public table are only paired with their matching name",
@@ -76,7 +81,14 @@ NSCFG = ["none", "android-root", "android+app-root", "app-nested", "android-rede
 STRINGS = {
     "empty": "", "len1": "x", "ascii": "hello world", "spaces": "  lead and trail ", "len127": "a" * 127, "len128": "b" * 128,
     "len300": "c" * 300, "bmp": "é中א", "bmp64": "é" * 64, "astral": "x\U0001F600y", "markup": "<&>\"'",
+    "tab-mid": "a\tb", "lf-cr": "l1\nl2\r", "del-nel": "\x7f\x85", "bmp-edges": "\ud7ff\ue000\ufffd",
+    "astral-edges": "\U00010000\U0010ffff",
 }
+# boundary characters of the XML 1.0 Char production (#x9 | #xA | #xD | [#x20-#xD7FF] | [#xE000-#xFFFD] |
+# [#x10000-#x10FFFF]) plus DEL and NEL: all legal, none may be rewritten
+XML_BOUNDARY = [0x09, 0x0A, 0x0D, 0x20, 0x7F, 0x85, 0xD7FF, 0xE000, 0xFFFD, 0x10000, 0x10FFFF]
+CHAR_POSITIONS = {"alone": "%s", "middle": "a%sb", "first": "%sab", "last": "ab%s", "twice": "%sa%s"}
+
 STRINGS_THOROUGH = {"len32767": "d" * 0x7FFF, "len32768-utf16only": "e" * 0x8000, "bmp-len127": "中" * 127}
 
 # value variants: type -> two boundary data values (string: two strings)
@@ -368,7 +380,34 @@ def fam_index(ctx, first):
             yield item
 
 
-FAMILIES = {"F7": fam_index, "F1": fam_shapes, "F2": fam_pairs, "F2b": fam_cross, "F6": fam_variant_shapes, "F3": fam_strings,
+def fam_chars(ctx, cp):
+    """F8: one boundary character of the XML Char production at every position of a string attribute value (plain
+    and android:), of a text chunk, and of both at once."""
+    c = chr(cp)
+    for pname, pat in CHAR_POSITIONS.items():
+        v = pat.replace("%s", c)
+        for where in ("plain-value", "android-value", "text", "value+text", "two-values+child-text"):
+            for utf8 in (False, True):
+                elems = skeleton(SHAPES[1], ["a", "b1"])
+                apply_ns("android-root", elems, SHAPES[1])
+                if where == "plain-value":
+                    elems[0]["attrs"].append({"ns": None, "name": "p", "t": 3, "d": 0, "s": v})
+                elif where == "android-value":
+                    elems[1]["attrs"].append({"ns": ANDROID, "name": "label", "t": 3, "d": 0, "s": v})
+                elif where == "text":
+                    elems[1]["kids"].append({"text": v})
+                elif where == "value+text":
+                    elems[0]["attrs"].append({"ns": None, "name": "p", "t": 3, "d": 0, "s": v})
+                    elems[0]["kids"].insert(0, {"text": v})
+                else:
+                    elems[0]["attrs"].append({"ns": None, "name": "p", "t": 3, "d": 0, "s": v})
+                    elems[0]["attrs"].append({"ns": ANDROID, "name": "name", "t": 3, "d": 0, "s": "x" + v})
+                    elems[1]["kids"].append({"text": v + "y"})
+                yield finish(elems, utf8, False, {"fam": "F8", "ns": "android-root", "char": "U+%04X" % cp,
+                                                  "pos": pname, "where": where})
+
+
+FAMILIES = {"F8": fam_chars, "F7": fam_index, "F1": fam_shapes, "F2": fam_pairs, "F2b": fam_cross, "F6": fam_variant_shapes, "F3": fam_strings,
             "F4": fam_text, "F5": fam_resmap}
 
 
@@ -386,6 +425,7 @@ def shards(ctx):
     s += [("F4", si) for si in range(len(SHAPES))]
     s += [("F5", i) for i in range(len(KNOWN_RID) + 3)]
     s += [("F7", i) for i in range(4)]
+    s += [("F8", cp) for cp in XML_BOUNDARY]
     return s
 
 
@@ -395,6 +435,7 @@ def space(ctx):
             "value_types": ["0x03 string"] + ["0x%02x" % t for t, _ in TYPED], "data_values_per_type": 2,
             "attribute_variants": len(variants()),
             "strings": sorted(STRINGS) + (sorted(STRINGS_THOROUGH) if ctx.thorough else []),
+            "xml_char_boundaries(F8)": ["U+%04X" % c for c in XML_BOUNDARY], "char_positions(F8)": list(CHAR_POSITIONS),
             "pools": ["utf16", "utf8"], "pool_entry_order(F1,F5)": POOLORDERS, "resource_map": ["off", "known ids + matching names", "unknown ids"],
             "caps": {"elements": 4, "depth": 3, "attributes_per_document": 4},
             "product": "NOT the full cartesian product: union of the exhaustive sub-products F1..F6 (module docstring); "
@@ -406,6 +447,11 @@ def space(ctx):
 def strclass(s):
     if s == "":
         return "empty"
+    special = sorted(set(ord(c) for c in s if ord(c) in XML_BOUNDARY and c != " "))
+    if special:
+        return "char-" + "+".join("U+%04X" % c for c in special)
+    if s != s.strip(" "):
+        return "edge-U+0020"
     n = len(s.encode("utf-16-le", "surrogatepass")) // 2
     if any(ord(c) > 0xFFFF for c in s):
         return "astral"
